@@ -48,6 +48,11 @@ type z =
 | Zpos of positive
 | Zneg of positive
 
+(** val eqb : bool -> bool -> bool **)
+
+let eqb b1 b2 =
+  if b1 then b2 else if b2 then false else true
+
 module Pos =
  struct
   (** val succ : positive -> positive **)
@@ -1066,3 +1071,226 @@ let exc_compatible self other =
                       then false
                       else true
        else true
+
+type ity = { iw : z; isg : bool }
+
+(** val t_INT : ity **)
+
+let t_INT =
+  { iw = (Zpos (XO (XO (XO (XO (XO XH)))))); isg = true }
+
+(** val t_UINT : ity **)
+
+let t_UINT =
+  { iw = (Zpos (XO (XO (XO (XO (XO XH)))))); isg = false }
+
+(** val t_LONG : ity **)
+
+let t_LONG =
+  { iw = (Zpos (XO (XO (XO (XO (XO (XO XH))))))); isg = true }
+
+(** val t_ULONG : ity **)
+
+let t_ULONG =
+  { iw = (Zpos (XO (XO (XO (XO (XO (XO XH))))))); isg = false }
+
+(** val ity_okb : ity -> bool **)
+
+let ity_okb t =
+  Z.leb (Zpos XH) t.iw
+
+(** val in_ty : ity -> z -> bool **)
+
+let in_ty t v =
+  in_rangeb t.iw t.isg v
+
+(** val conv : ity -> z -> z **)
+
+let conv t v =
+  wrap t.iw t.isg v
+
+(** val promote : ity -> ity **)
+
+let promote t =
+  if Z.ltb t.iw (Zpos (XO (XO (XO (XO (XO XH)))))) then t_INT else t
+
+(** val uac : ity -> ity -> ity **)
+
+let uac a b =
+  if eqb a.isg b.isg
+  then if Z.ltb a.iw b.iw then b else a
+  else let u = if a.isg then b else a in
+       let s = if a.isg then a else b in if Z.leb s.iw u.iw then u else s
+
+type lsuf =
+| SufNone
+| SufL
+| SufU
+| SufUL
+
+type cexpr =
+| CDec of z * lsuf
+| CHex of z * lsuf
+| CInt of z
+| CNeg of cexpr
+| CAdd of cexpr * cexpr
+| CSub of cexpr * cexpr
+| CMul of cexpr * cexpr
+| CCast of ity * cexpr
+
+(** val lit_types : bool -> lsuf -> ity list **)
+
+let lit_types hex = function
+| SufNone ->
+  if hex
+  then t_INT :: (t_UINT :: (t_LONG :: (t_ULONG :: [])))
+  else t_INT :: (t_LONG :: (t_ULONG :: []))
+| SufL -> t_LONG :: (t_ULONG :: [])
+| SufU -> t_UINT :: (t_ULONG :: [])
+| SufUL -> t_ULONG :: []
+
+(** val first_fit : ity list -> z -> (ity * z) option **)
+
+let rec first_fit l n0 =
+  match l with
+  | [] -> None
+  | t :: r -> if in_ty t n0 then Some (t, n0) else first_fit r n0
+
+(** val arith : ity -> z -> (ity * z) option **)
+
+let arith ct r =
+  if ct.isg
+  then if in_ty ct r then Some (ct, r) else None
+  else Some (ct, (conv ct r))
+
+(** val binop :
+    (z -> z -> z) -> (ity * z) option -> (ity * z) option -> (ity * z) option **)
+
+let binop f x y =
+  match x with
+  | Some p ->
+    let (ta, va) = p in
+    (match y with
+     | Some p0 ->
+       let (tb, vb) = p0 in
+       let ct = uac (promote ta) (promote tb) in
+       arith ct (f (conv ct va) (conv ct vb))
+     | None -> None)
+  | None -> None
+
+(** val ceval : cexpr -> (ity * z) option **)
+
+let rec ceval = function
+| CDec (n0, s) ->
+  if Z.leb Z0 n0 then first_fit (lit_types false s) n0 else None
+| CHex (n0, s) ->
+  if Z.leb Z0 n0 then first_fit (lit_types true s) n0 else None
+| CInt v -> if in_ty t_INT v then Some (t_INT, v) else None
+| CNeg a ->
+  (match ceval a with
+   | Some p ->
+     let (t, v) = p in let ct = promote t in arith ct (Z.opp (conv ct v))
+   | None -> None)
+| CAdd (a, b) -> binop Z.add (ceval a) (ceval b)
+| CSub (a, b) -> binop Z.sub (ceval a) (ceval b)
+| CMul (a, b) -> binop Z.mul (ceval a) (ceval b)
+| CCast (t, a) ->
+  (match ceval a with
+   | Some p ->
+     let (_, v) = p in if ity_okb t then Some (t, (conv t v)) else None
+   | None -> None)
+
+(** val eq_test : ity -> z -> cexpr -> bool option **)
+
+let eq_test rt r e =
+  match ceval e with
+  | Some p ->
+    let (te, v) = p in
+    let ct = uac (promote rt) (promote te) in
+    Some (Z.eqb (conv ct r) (conv ct v))
+  | None -> None
+
+(** val emitted : ity option -> cexpr -> cexpr **)
+
+let emitted tc e =
+  match tc with
+  | Some t -> CCast (t, e)
+  | None -> e
+
+(** val stored : ity -> cexpr -> z option **)
+
+let stored rt e =
+  match ceval e with
+  | Some p -> let (_, v) = p in Some (conv rt v)
+  | None -> None
+
+(** val fires : ity option -> ity -> cexpr -> z -> bool **)
+
+let fires tc rt e r =
+  match eq_test rt r (emitted tc e) with
+  | Some b -> b
+  | None -> false
+
+(** val kind_of : ity -> rkind **)
+
+let kind_of rt =
+  KInt (rt.iw, rt.isg)
+
+(** val fn_spec : ity -> cexpr -> chk -> fspec option **)
+
+let fn_spec rt e ck =
+  match stored rt e with
+  | Some s -> Some { ev = (Some (Sent ((VInt s), false))); ec = ck }
+  | None -> None
+
+(** val site_spec : ity option -> ity -> cexpr -> chk -> fspec option **)
+
+let site_spec tc rt e ck =
+  match ceval (emitted tc e) with
+  | Some p ->
+    let (_, s') = p in
+    let r0 = conv rt s' in
+    if fires tc rt e r0
+    then Some { ev = (Some (Sent ((VInt r0), false))); ec = ck }
+    else Some { ev = None; ec = ChkNo }
+  | None -> None
+
+(** val observe_value :
+    ity option -> ity -> cexpr -> chk -> flavour -> bool -> body -> state ->
+    observed option **)
+
+let observe_value tc rt e ck fl cn b st =
+  match site_spec tc rt e ck with
+  | Some psp ->
+    (match fn_spec rt e ck with
+     | Some fsp -> Some (observe_via psp fsp (kind_of rt) fl cn b st)
+     | None -> None)
+  | None -> None
+
+type fty =
+| F32
+| F64
+
+(** val fconv : ('a1 -> 'a1) -> fty -> 'a1 -> 'a1 **)
+
+let fconv to_f32 t x =
+  match t with
+  | F32 -> to_f32 x
+  | F64 -> x
+
+(** val float_test :
+    ('a1 -> 'a1 -> bool) -> ('a1 -> 'a1) -> bool -> fty option -> 'a1 -> 'a1
+    -> bool **)
+
+let float_test feq to_f32 macro tc c r =
+  let ec0 = match tc with
+            | Some t -> fconv to_f32 t c
+            | None -> c in
+  if macro
+  then if feq ec0 ec0 then feq r ec0 else negb (feq r r)
+  else feq r ec0
+
+(** val float_stored : ('a1 -> 'a1) -> fty -> 'a1 -> 'a1 **)
+
+let float_stored =
+  fconv
